@@ -6,7 +6,7 @@ sub-formula evaluations (and of the looked-up variable / stored polarity for lit
 connective named by the variant: Literal(x,p) ↦ x==p, Not ↦ ¬, And ↦ ∧, Or ↦ ∨, Iff ↦ =, Xor ↦ ≠, Ite ↦ g?t:e.
 """
 import itertools
-from . import mir
+from . import mir, canon
 from .base import inst, OK, VIOLATION, UNDECIDED, strip
 from .facts import CheckerError
 from .mir import show
@@ -34,6 +34,12 @@ def run(prog):
     def ev(t, env):
         t = strip(t)
         k = t[0]
+        if k in ("call", "field"):
+            # a pair of sub-evaluations produced by a local closure (`let both = |a, b| (a.eval(v), b.eval(v))`)
+            t2 = canon.project(canon.beta(prog, t))
+            if t2 != t:
+                t = strip(t2)
+                k = t[0]
         if k == "const":
             return bool(int(t[2]))
         if k == "un" and t[1] == "Not":
